@@ -36,10 +36,12 @@ func runC16(o opts) error {
 			scns = append(scns, c16.Exhaustive("LMSHNWC", 0, 5, 8, []string{"plain", "rich"})...)
 			scns = append(scns, c16.Exhaustive("LSHNWC", 6, 6, 6, []string{"plain", "rich"})...)
 			scns = append(scns, c16.Exhaustive("LSHNWC", 0, 5, 8, []string{"hard"})...)
-			scns = append(scns, c16.Exhaustive("LSHNA", 1, 5, 6, []string{"rich", "hard"})...) // with isolated accents
+			scns = append(scns, c16.Exhaustive("LSHNA", 1, 5, 6, []string{"rich", "hard"})...)   // with isolated accents
+			scns = append(scns, c16.Exhaustive("LSNOGW", 1, 5, 7, []string{"plain", "rich"})...) // with glue: opening punctuation, no-break space
 		} else {
 			scns = append(scns, c16.Exhaustive("LMSHNWC", 0, 4, 7, all)...)
-			scns = append(scns, c16.Exhaustive("LSNA", 1, 4, 5, []string{"rich", "hard"})...) // with isolated accents (cells are clusters)
+			scns = append(scns, c16.Exhaustive("LSNA", 1, 4, 5, []string{"rich", "hard"})...)   // with isolated accents (cells are clusters)
+			scns = append(scns, c16.Exhaustive("LSOG", 1, 4, 6, []string{"plain", "rich"})...) // with glue: opening punctuation, no-break space
 		}
 		nrand := 900
 		if o.tier == "thorough" {
@@ -49,6 +51,7 @@ func runC16(o opts) error {
 			scns = append(scns, c16.Random(rng, all[i%3]))
 		}
 		scns = append(scns, c16.Corners()...)
+		scns = append(scns, c16.Giants()...)
 	}
 	sink, err := trace.NewSink(o.out, o.shards)
 	if err != nil {
